@@ -873,12 +873,12 @@ func (c *Ctx) pathN(v ssa.Value, depth int) string {
 			return "p"
 		case *ssa.FreeVar:
 			if sv := cellValue(x); sv != nil {
-				return c.pathN(sv, depth+1)
+				return c.pathN(sv, depth)
 			}
 			return "fv"
 		case *ssa.Alloc:
 			if sv := singleStore(x); sv != nil {
-				return c.pathN(sv, depth+1)
+				return c.pathN(sv, depth)
 			}
 			return "var"
 		case *ssa.Phi:
@@ -892,7 +892,7 @@ func (c *Ctx) pathN(v ssa.Value, depth int) string {
 		case *ssa.UnOp:
 			if x.Op == token.MUL {
 				if sv := cellValue(x.X); sv != nil {
-					return c.pathN(sv, depth+1)
+					return c.pathN(sv, depth)
 				}
 			}
 		}
